@@ -7,6 +7,27 @@ from .core import EngineError, QAll, QAny, Unsupported, real_of_float, zbool, zn
 from .values import NAN, NINF, PINF, Arr, Inf, Masked, NaN, Vec, is_num, is_sym, lift
 
 
+FP64 = z3.Float64()
+RNE = z3.RNE()
+
+
+def is_fp(v):
+    return is_sym(v) and z3.is_fp(v)
+
+
+def _fp(v):
+    """operand of an IEEE double operation (FP mode: C05 / C16 re-posed in Float64)"""
+    if is_fp(v):
+        return v
+    if isinstance(v, bool):
+        return z3.FPVal(float(v), FP64)
+    if isinstance(v, (int, float)):
+        return z3.FPVal(float(v), FP64)
+    if isinstance(v, Inf):
+        return z3.fpPlusInfinity(FP64) if v.sign > 0 else z3.fpMinusInfinity(FP64)
+    raise EngineError("mixing IEEE doubles with exact reals")
+
+
 def to_term(v, prefer_real=True):
     if isinstance(v, bool):
         return z3.BoolVal(v)
@@ -41,6 +62,9 @@ def _both_conc(a, b):
 
 def scalar_bin(op, a, b):
     """+ - * on scalars (python numbers, z3 terms, Inf/NaN)."""
+    if is_fp(a) or is_fp(b):
+        x, y = _fp(a), _fp(b)
+        return {"+": z3.fpAdd, "-": z3.fpSub, "*": z3.fpMul}[op](RNE, x, y)
     if isinstance(a, (Inf, NaN)) or isinstance(b, (Inf, NaN)):
         return _special_bin(op, a, b)
     if _both_conc(a, b):
@@ -93,6 +117,8 @@ def _special_bin(op, a, b):
 
 
 def scalar_neg(a):
+    if is_fp(a):
+        return z3.fpNeg(a)
     if isinstance(a, Inf):
         return Inf(-a.sign)
     if isinstance(a, NaN):
@@ -104,6 +130,9 @@ def scalar_neg(a):
 
 def scalar_cmp(op, a, b):
     """Comparison; returns python bool or z3 Bool."""
+    if is_fp(a) or is_fp(b):
+        x, y = _fp(a), _fp(b)
+        return {"<": z3.fpLT, "<=": z3.fpLEQ, ">": z3.fpGT, ">=": z3.fpGEQ, "==": z3.fpEQ, "!=": z3.fpNEQ}[op](x, y)
     if isinstance(a, NaN) or isinstance(b, NaN):
         return op == "!="
     if isinstance(a, Inf) or isinstance(b, Inf):
@@ -149,6 +178,9 @@ def _inf_cmp(op, a, b):
 
 
 def zmax(a, b):
+    if is_fp(a) or is_fp(b):
+        x, y = _fp(a), _fp(b)
+        return z3.If(z3.fpGEQ(x, y), x, y)
     if isinstance(a, Inf) or isinstance(b, Inf):
         if isinstance(a, Inf) and a.sign > 0 or isinstance(b, Inf) and b.sign > 0:
             return PINF
@@ -163,6 +195,9 @@ def zmax(a, b):
 
 
 def zmin(a, b):
+    if is_fp(a) or is_fp(b):
+        x, y = _fp(a), _fp(b)
+        return z3.If(z3.fpLEQ(x, y), x, y)
     if isinstance(a, Inf) or isinstance(b, Inf):
         if isinstance(a, Inf) and a.sign < 0 or isinstance(b, Inf) and b.sign < 0:
             return NINF
@@ -205,6 +240,8 @@ def zor(*xs):
 def zite(c, a, b):
     if isinstance(c, bool):
         return a if c else b
+    if is_fp(a) or is_fp(b):
+        return z3.If(c, _fp(a), _fp(b))
     if isinstance(a, (bool,)) or (is_sym(a) and z3.is_bool(a)):
         return z3.If(c, zbool(a) if isinstance(a, bool) else a, zbool(b) if isinstance(b, bool) else b)
     if _is_intlike(a) and _is_intlike(b):
